@@ -8,7 +8,7 @@ use crate::{
     unwrap_signal,
 };
 use any_spawner::Executor;
-use futures::{channel::oneshot, select, FutureExt};
+use futures::{channel::oneshot, select_biased, FutureExt};
 use send_wrapper::SendWrapper;
 use std::{
     future::Future,
@@ -266,7 +266,10 @@ where
                 let value = self.value.clone();
                 let in_flight = self.in_flight.clone();
                 async move {
-                    select! {
+                    // biased: the abort arm is always checked first, so an abort that
+                    // was requested before the task is polled wins over a result that
+                    // became available in the meantime
+                    select_biased! {
                         // if the abort message has been sent, bail and do nothing
                         _ = abort_rx => {
                             in_flight.update(|n| *n = n.saturating_sub(1));
@@ -318,7 +321,10 @@ where
                 let dispatched = self.dispatched.clone();
                 let in_flight = self.in_flight.clone();
                 async move {
-                    select! {
+                    // biased: the abort arm is always checked first, so an abort that
+                    // was requested before the task is polled wins over a result that
+                    // became available in the meantime
+                    select_biased! {
                         // if the abort message has been sent, bail and do nothing
                         _ = abort_rx => {
                             in_flight.update(|n| *n = n.saturating_sub(1));
